@@ -73,7 +73,8 @@ def gen_plan(tape, cfg):
     for _ in range(n):
         k = tape.weighted(kinds, "op")
         if k == "assert":
-            ops.append({"op": "assert", "f": bp.gen_term(tape, bp.BOOL, 2, ctx)})
+            ops.append({"op": "assert", "f": bp.gen_term(tape, bp.BOOL, 2, ctx),
+                        "api": tape.choice(["add_assertion", "add_assertion", "add_assertions", "named"], "assert.api")})
         elif k == "assert_soft":
             gid = tape.choice([None, "g1", "g2"], "soft.id")
             w = tape.choice([None, 1, 2, 5], "soft.w")
@@ -272,7 +273,13 @@ def _solver_half(plan, ops, symbols, tape, probe, trace):
         if k == "assert":
             f = bp.build(o["f"], env)
             tok_f[i], tok_bp[i] = f, o["f"]
-            api("add_assertion", solver.add_assertion, f)
+            how = o.get("api", "add_assertion")
+            if how == "add_assertions":
+                api("add_assertions", solver.add_assertions, [f])
+            elif how == "named":
+                api("add_assertion(named)", solver.add_assertion, f, named="n%d" % i)
+            else:
+                api("add_assertion", solver.add_assertion, f)
             model.assert_(i)
         elif k == "push":
             api("push", solver.push, o["n"])
@@ -502,13 +509,13 @@ def _script_half(plan, ops, symbols, probe, trace):
             model.assert_soft(o["id"], i, o["w"] if o["w"] is not None else 1)
         elif k == "push":
             direct.add(smtcmd.PUSH, [o["n"]])
-            lines.append("(push %d)" % o["n"])
+            lines.append("(push)" if (o["n"] == 1 and i % 3 == 0) else "(push %d)" % o["n"])
             model.push(o["n"])
             if o["n"] > 1:
                 nontrivial = True
         elif k == "pop":
             direct.add(smtcmd.POP, [o["n"]])
-            lines.append("(pop %d)" % o["n"])
+            lines.append("(pop)" if (o["n"] == 1 and i % 3 == 1) else "(pop %d)" % o["n"])
             if o["n"] > 1:
                 nontrivial = True
                 if any(e[0] == "soft" for fr in model.frames[-o["n"]:] for e in fr):
